@@ -159,16 +159,16 @@ def main(ctx, replay=None):
                 bad = "number of volumes / weights"
             else:
                 for a, b in zip(data.volumes, back.volumes):
-                    if max(abs(a.pressure - b.pressure), abs(a.volume - b.volume), abs(a.energy - b.energy)) > 5.1e-7:
+                    if not max(abs(a.pressure - b.pressure), abs(a.volume - b.volume), abs(a.energy - b.energy)) <= 5.1e-7:
                         bad = "P/V/E"
                     for qa, qb in zip(a.q_points, b.q_points):
                         if len(qb.modes) != np_ or numpy.max(numpy.abs(numpy.array(qa.coord) - numpy.array(qb.coord))) > 5.1e-5 \
-                                or numpy.max(numpy.abs(numpy.array(qa.modes) - numpy.array(qb.modes))) > 5.1e-7:
+                                or not numpy.max(numpy.abs(numpy.array(qa.modes) - numpy.array(qb.modes))) <= 5.1e-7:
                             bad = "q-point coordinates / frequencies"
                     if len(b.q_points) != nq:
                         bad = "number of q-points"
                 for (ca, wa), (cb, wb) in zip(data.weights, back.weights):
-                    if numpy.max(numpy.abs(numpy.array(ca) - numpy.array(cb))) > 5.1e-7 or abs(wa - wb) > 5.1e-7:
+                    if not numpy.max(numpy.abs(numpy.array(ca) - numpy.array(cb))) <= 5.1e-7 or not abs(wa - wb) <= 5.1e-7:
                         bad = "weights"
             if bad:
                 ctx.violation(f"write_energy -> read_energy does not reproduce {bad} for counts {(nv, nq, np_)}, magnitude {mag:.3g}",
@@ -207,8 +207,9 @@ def static_tables(ctx, rng, tmp, read_elast_data):
             for i in range(nv):
                 lines.append(" ".join(repr(float(x)) for x in latv[i]))
         f = tmp / "elast.dat"
-        f.write_text("\n".join(lines) + "\n")
-        ctx.count({"static": names, "nv": nv, "lat": lat})
+        trail = "" if lat else str(rng.choice(["", "\n", "\n\n", "   \n"]))      # blank line(s) after a table without lattice block
+        f.write_text("\n".join(lines) + "\n" + trail)
+        ctx.count({"static": names, "nv": nv, "lat": lat, "trail": trail})
         try:
             d = read_elast_data(str(f))
         except Exception as ex:
@@ -282,7 +283,7 @@ def fill_roundtrip(ctx, rng, tmp, read_elast_data):
         else:
             for a, b in zip(out.volumes, ref.volumes):
                 if set(a.static_elastic_modulus) != set(b.static_elastic_modulus) or \
-                        any(abs(a.static_elastic_modulus[k] - b.static_elastic_modulus[k]) > 2e-5 for k in b.static_elastic_modulus):
+                        any(not abs(a.static_elastic_modulus[k] - b.static_elastic_modulus[k]) <= 2e-5 for k in b.static_elastic_modulus):
                     bad = "components"
         if bad:
             ctx.violation(f"cij fill -s {s}: {bad} of the output differ from the filled parse of the input", {"input": "\n".join(lines), "output": r.output},
